@@ -264,6 +264,17 @@ fn describe(items: &[Item]) -> String {
     s
 }
 
+/// Does what an iterator call returned equal the reference item (None = iteration is over)?
+fn item_matches(g: &Option<Result<v2::TypeLengthValue, v2::ParseError>>, e: Option<&Item>, section: &[u8]) -> bool {
+    match (g, e) {
+        (None, None) => true,
+        (Some(Ok(t)), Some(Item::Tlv { kind, off, len })) => t.kind == *kind && t.value.as_ref() == &section[*off..off + len],
+        (Some(Err(v2::ParseError::InvalidTLV(k, d))), Some(Item::Overrun { kind, declared })) => k == kind && d == declared,
+        (Some(Err(_)), Some(Item::Short { .. })) => true,
+        _ => false,
+    }
+}
+
 /// Drive the real iterator and compare with the reference walk.
 pub fn check_iteration(acc: &mut Acc, entry: &str, section: &[u8], mut it: v2::TypeLengthValues) {
     let expected = otlv::walk(section);
@@ -272,6 +283,20 @@ pub fn check_iteration(acc: &mut Acc, entry: &str, section: &[u8], mut it: v2::T
     let mut ended = false;
     let mut steps = 0usize;
     let small = expected.len() <= 48;
+    // First a bounded walk with next() alone on a copy: an iterator that never ends is reported here, before any
+    // unbounded provided method (count, last) is called on it and hangs the check instead.
+    {
+        let mut probe = it;
+        let mut n = 0usize;
+        while probe.next().is_some() {
+            n += 1;
+            if n > cap + 1 {
+                acc.violation("does-not-end", entry, format!("None after {} items ({} bytes)", expected.len(), section.len()), format!("still yielding after {} items", n));
+                return;
+            }
+        }
+        acc.eval(n as u64 + 1);
+    }
     while steps <= cap + 1 {
         if small {
             // the provided Iterator methods on a copy of the cursor must continue from the cursor, not restart
@@ -289,6 +314,52 @@ pub fn check_iteration(acc: &mut Acc, entry: &str, section: &[u8], mut it: v2::T
                     format!("{} items remain after {} calls to next()", remaining, got.len()),
                     format!("take(n).count()={} fold={} for_each={} count()={}", by_count, by_fold, by_for_each, direct),
                 );
+                return;
+            }
+        }
+        if small {
+            // positional and searching forms (nth, skip, step_by, last, find, position, any, all) on copies of the
+            // cursor: each must agree with repeated next() from this cursor, also when called again on the same copy
+            let rest = &expected[got.len().min(expected.len())..];
+            let mut bad: Option<String> = None;
+            for k in 0..=3usize {
+                let a = { let mut c = it; c.nth(k) };
+                let b = it.skip(k).next();
+                if !item_matches(&a, rest.get(k), section) || !item_matches(&b, rest.get(k), section) {
+                    bad = Some(format!("nth({})/skip({}).next() != item {} from the cursor", k, k, k));
+                }
+                let mut c = it;
+                let _ = c.nth(k);
+                let second = c.nth(1);
+                let after = c.next();
+                if !item_matches(&second, rest.get(k + 2), section) || !item_matches(&after, rest.get(k + 3), section) {
+                    bad = Some(format!("nth({}) then nth(1) then next() on one cursor", k));
+                }
+            }
+            for st in 2..=3usize {
+                let n = it.step_by(st).take(cap + 2).count();
+                if n != (rest.len() + st - 1) / st {
+                    bad = Some(format!("step_by({}).count()={} with {} items remaining", st, n, rest.len()));
+                }
+            }
+            if !item_matches(&it.last(), rest.last(), section) {
+                bad = Some("last() is not the last item from the cursor".into());
+            }
+            let mut seen = 0usize;
+            let found = it.take(cap + 2).find(|_| {
+                seen += 1;
+                false
+            });
+            let pos = it.take(cap + 2).position(|_| false);
+            let any = it.take(cap + 2).any(|_| false);
+            let all = it.take(cap + 2).all(|_| true);
+            // (take() consumes a copy of the cursor; nth / find / position / any / all take &mut self, hence the copies above)
+            acc.eval(16);
+            if found.is_some() || seen != rest.len() || pos.is_some() || any || !all {
+                bad = Some(format!("find/position/any/all visited {} items with {} remaining", seen, rest.len()));
+            }
+            if let Some(b) = bad {
+                acc.violation("adaptor-disagrees-with-next", entry, format!("agreement with next() after {} calls", got.len()), b);
                 return;
             }
         }
